@@ -128,7 +128,7 @@ impl Prop for C05 {
             let at = if rng.chance(3, 4) { rng.usize(0, head_len.max(1) - 0).min(total) } else { rng.usize(0, total) } as u64;
             let kind = if rng.chance(1, 3) { FaultKind::Eof } else { FaultKind::Err(*rng.pick(&ErrKind::INJECTABLE)) };
             let once = matches!(kind, FaultKind::Err(_)) && rng.chance(1, 3);
-            Some(Fault { at, kind, once })
+            Some(Fault { at, kind, once, os: rng.chance(1, 2) })
         } else {
             None
         };
